@@ -178,9 +178,26 @@ class SimFile:
                 pass
 
 
+SOURCE_BASENAMES = {'coords.xyz', 'data.txt', 'data2.txt', 'vasprun.xml', 'top.gro', 'top2.gro', 'traj.xtc'}
+_DATASET_DIR = __import__('re').compile(r'^d\d+$')
+
+
 def is_cache(path: str) -> bool:
-    base = os.path.basename(path)
-    return '.cache' in base
+    """Is this one of the files the code under test keeps next to the simulation sources (i.e. a cache, a temp file
+    of a cache, ...)?  Decided by *where* it is, not by its name: any file inside a dataset directory of the run (or
+    a harness-chosen save_*.cache) that is neither a source file the harness wrote nor a dot-file (MDAnalysis offsets)."""
+    path = os.path.normpath(path)
+    if os.path.isabs(path):
+        return False
+    parts = path.split(os.sep)
+    base = parts[-1]
+    if base.startswith('.'):
+        return False
+    if len(parts) == 1:
+        return base.startswith('save_') and '.cache' in base
+    if not _DATASET_DIR.match(parts[0]):
+        return False
+    return base not in SOURCE_BASENAMES
 
 
 class SimFS:
